@@ -31,119 +31,111 @@ theorem C20.weighting_eq_equivalence :
     (∀ a b c : Weighting, a.eqI b = true → b.eqI c = true → a.eqI c = true) := by
   refine ⟨?_, ?_, ?_⟩ <;> intros <;> simp_all [Weighting.eqI_iff]
 
-/- FULL STATEMENT (false for the code as it exists, see `C20.weighting_hash_cross_family_fails`):
-   ∀ heap a b, a.eqI b = true → a.hk heap = b.hk heap. -/
-/-- Equal weightings OF THE SAME CLASS FAMILY have equal hashes (for every content of the
-weighting arrays).  Missing for the full statement: `Weighting.__eq__` ignores `type(self)`
-while `__hash__` contains it (finding C20-F3). -/
-theorem C20.weighting_hash_respects_eq_partial (heap : Nat → String) (a b : Weighting)
-    (h : a.eqI b = true) (hc : a.cls = b.cls) : a.hk heap = b.hk heap :=
-  Weighting.hk_of_key heap ((Weighting.eqI_iff a b).1 h) hc
+/-- Equal weightings have equal hashes, for every content of the weighting arrays (full
+statement since the repair of C20-F3: `__eq__` tests `type(other) is type(self)`). -/
+theorem C20.weighting_hash_respects_eq (heap : Nat → String) (a b : Weighting)
+    (h : a.eqI b = true) : a.hk heap = b.hk heap :=
+  Weighting.hk_of_key heap ((Weighting.eqI_iff a b).1 h)
 
 example : (Weighting.const .np (.fin 2) (.fin 1)).eqI (.const .np (.fin 2) (.fin 1)) = true := by
   decide
 
-/-- Counterexample on the model of the current code: `NumpyTensorSpaceConstWeighting(2.0) ==
-ProductSpaceConstWeighting(2.0)` is `True` but the hashed tuples differ. -/
-theorem C20.weighting_hash_cross_family_fails :
-    ∃ a b : Weighting, a.eqI b = true ∧ ∀ heap, a.hk heap ≠ b.hk heap :=
-  ⟨.const .np (.fin 2) (.fin 2), .const .ps (.fin 2) (.fin 2), by decide, fun _ => by
-    simp [Weighting.hk, Weighting.baseHk, tup, WCls.tok]⟩
+/-- Weightings of different class families are never equal (they have different hashes):
+`NumpyTensorSpaceConstWeighting(2.0) != ProductSpaceConstWeighting(2.0)`. -/
+theorem C20.weighting_cross_family_unequal (a b : Weighting) (h : a.cls ≠ b.cls) :
+    a.eqI b = false := by
+  cases a <;> cases b <;> simp_all [Weighting.eqI, Weighting.baseEq, Weighting.cls]
 
 /-! ## interval products, grids, partitions -/
 
-/- FULL STATEMENT (false for the code as it exists): `IntervalProd.__eq__` never raises and is
-   an equivalence on all interval products, and equal ones have equal hashes. -/
-/-- `IntervalProd.__eq__` restricted to interval products of one common dimension `d`: never
-raises, reflexive, symmetric, transitive, and equal ones have equal hashes.  Missing for the
-full statement: pairs of different `ndim` (NumPy broadcasting, finding C20-F1). -/
-theorem C20.interval_eq_equivalence_partial (d : Nat) :
+/-- `IntervalProd.__eq__` (with the `ndim` guard of the repair of C20-F1) never raises, is
+reflexive, symmetric and transitive on ALL interval products, of any and mixed dimensions,
+and equal ones have equal hashes. -/
+theorem C20.interval_eq_equivalence :
     (∀ a : IntervalProd, a.wf → a.eqO a = some true) ∧
-    (∀ a b : IntervalProd, a.wf → b.wf → a.ndim = d → b.ndim = d → (a.eqO b).isSome = true) ∧
-    (∀ a b : IntervalProd, a.wf → b.wf → a.ndim = d → b.ndim = d →
-      a.eqO b = some true → b.eqO a = some true) ∧
-    (∀ a b c : IntervalProd, a.wf → b.wf → c.wf → a.ndim = d → b.ndim = d → c.ndim = d →
+    (∀ a b : IntervalProd, a.wf → b.wf → (a.eqO b).isSome = true) ∧
+    (∀ a b : IntervalProd, a.wf → b.wf → a.eqO b = some true → b.eqO a = some true) ∧
+    (∀ a b c : IntervalProd, a.wf → b.wf → c.wf →
       a.eqO b = some true → b.eqO c = some true → a.eqO c = some true) ∧
-    (∀ a b : IntervalProd, a.wf → b.wf → a.ndim = d → b.ndim = d →
-      a.eqO b = some true → a.hk = b.hk) := by
-  refine ⟨?_, ?_, ?_, ?_, ?_⟩
-  · intro a ha; exact (IntervalProd.eqO_iff ha ha rfl).2 rfl
-  · intro a b ha hb hda hdb; simp [IntervalProd.eqO_same ha hb (hda.trans hdb.symm)]
-  · intro a b ha hb hda hdb h
-    have := (IntervalProd.eqO_iff ha hb (hda.trans hdb.symm)).1 h
-    exact (IntervalProd.eqO_iff hb ha (hdb.trans hda.symm)).2 this.symm
-  · intro a b c ha hb hc hda hdb hdc h1 h2
-    have k1 := (IntervalProd.eqO_iff ha hb (hda.trans hdb.symm)).1 h1
-    have k2 := (IntervalProd.eqO_iff hb hc (hdb.trans hdc.symm)).1 h2
-    exact (IntervalProd.eqO_iff ha hc (hda.trans hdc.symm)).2 (k1.trans k2)
-  · intro a b ha hb hda hdb h
-    exact IntervalProd.hk_of_key ((IntervalProd.eqO_iff ha hb (hda.trans hdb.symm)).1 h)
+    (∀ a b : IntervalProd, a.wf → b.wf → a.eqO b = some true → a.hk = b.hk) ∧
+    (∀ a b : IntervalProd, a.ndim ≠ b.ndim → a.eqO b = some false) := by
+  refine ⟨?_, ?_, ?_, ?_, ?_, ?_⟩
+  · intro a ha; exact (IntervalProd.eqO_iff ha ha).2 rfl
+  · intro a b ha hb; exact IntervalProd.eqO_total ha hb
+  · intro a b ha hb h
+    exact (IntervalProd.eqO_iff hb ha).2 ((IntervalProd.eqO_iff ha hb).1 h).symm
+  · intro a b c ha hb hc h1 h2
+    exact (IntervalProd.eqO_iff ha hc).2
+      (((IntervalProd.eqO_iff ha hb).1 h1).trans ((IntervalProd.eqO_iff hb hc).1 h2))
+  · intro a b ha hb h
+    exact IntervalProd.hk_of_key ((IntervalProd.eqO_iff ha hb).1 h)
+  · intro a b h; simp [IntervalProd.eqO, h]
 
 example : (IntervalProd.mk [.fin 0, .negZero] [.fin 1, .posInf]).eqO ⟨[.negZero, .fin 0], [.fin 1, .posInf]⟩
     = some true := by decide
 
-/-- Counterexamples on the model of the current code (finding C20-F1):
-`[0,1] == [0,1]^2` and `[0,1] == [0,1]^3` are `True` (broadcasting) with different hashes,
-`[0,1]^2 == [0,1]^3` raises — so `==` is neither hash-consistent nor transitive nor total. -/
-theorem C20.interval_eq_broadcast_fails :
+/-- Sensitivity (the defect C20-F1, on the model of the OLD comparison without the `ndim`
+guard): `[0,1] == [0,1]^2` and `[0,1] == [0,1]^3` were `True` by broadcasting, with different
+hashes, and `[0,1]^2 == [0,1]^3` raised. -/
+theorem C20.old_interval_eq_broadcast_fails :
     let i1 : IntervalProd := ⟨[.fin 0], [.fin 1]⟩
     let i2 : IntervalProd := ⟨[.fin 0, .fin 0], [.fin 1, .fin 1]⟩
     let i3 : IntervalProd := ⟨[.fin 0, .fin 0, .fin 0], [.fin 1, .fin 1, .fin 1]⟩
-    i2.eqO i1 = some true ∧ i1.eqO i3 = some true ∧ i2.eqO i3 = none ∧ i1.hk ≠ i2.hk := by
+    i2.eqOld i1 = some true ∧ i1.eqOld i3 = some true ∧ i2.eqOld i3 = none ∧ i1.hk ≠ i2.hk := by
   decide
 
-/-- `RectGrid.__eq__` is an equivalence relation on all grids (any number of axes/points). -/
+/-- `RectGrid.__eq__` is an equivalence relation on all grids (any number of axes/points)
+and equal grids have equal hashes (full statement since the repair of C20-F2: the hashed
+bytes are those of `cv + 0.0`). -/
 theorem C20.grid_eq_equivalence :
     (∀ a : Grid, a.eqI a = true) ∧
     (∀ a b : Grid, a.eqI b = true → b.eqI a = true) ∧
-    (∀ a b c : Grid, a.eqI b = true → b.eqI c = true → a.eqI c = true) := by
-  refine ⟨?_, ?_, ?_⟩ <;> intros <;> simp_all [Grid.eqI_iff]
+    (∀ a b c : Grid, a.eqI b = true → b.eqI c = true → a.eqI c = true) ∧
+    (∀ a b : Grid, a.eqI b = true → a.hk = b.hk) := by
+  refine ⟨?_, ?_, ?_, ?_⟩ <;> intros <;> simp_all [Grid.eqI_iff]
+  exact Grid.hk_of_key (by assumption)
 
-/- FULL STATEMENT (false for the code as it exists): ∀ a b, a.eqI b = true → a.hk = b.hk. -/
-/-- Equal grids without a `-0.0` coordinate have equal hashes.  Missing for the full
-statement: `__hash__` hashes `tobytes()`, which distinguishes `-0.0` from `0.0` (finding C20-F2). -/
-theorem C20.grid_hash_respects_eq_partial (a b : Grid) (ha : a.noNegZero) (hb : b.noNegZero)
-    (h : a.eqI b = true) : a.hk = b.hk :=
-  Grid.hk_of_key ((Grid.eqI_iff a b).1 h) ha hb
-
-/-- Counterexample (finding C20-F2): `RectGrid([-0.0, 1]) == RectGrid([0.0, 1])` but the hashed
-byte strings differ. -/
-theorem C20.grid_hash_signed_zero_fails :
-    (Grid.mk [[.negZero, .fin 1]]).eqI ⟨[[.fin 0, .fin 1]]⟩ = true ∧
-    (Grid.mk [[.negZero, .fin 1]]).hk ≠ (Grid.mk [[.fin 0, .fin 1]]).hk := by
+/-- Two grids that differ in one interior coordinate only (same shape, same end points) are
+unequal in BOTH directions — e.g. the uniform `[0,2,4,6]` and the non-uniform `[0,2,5,6]`. -/
+theorem C20.grid_interior_coordinate_matters :
+    (Grid.mk [[.fin 0, .fin 2, .fin 4, .fin 6]]).eqI ⟨[[.fin 0, .fin 2, .fin 5, .fin 6]]⟩ = false ∧
+    (Grid.mk [[.fin 0, .fin 2, .fin 5, .fin 6]]).eqI ⟨[[.fin 0, .fin 2, .fin 4, .fin 6]]⟩ = false := by
   decide
 
-/-- `RectPartition.__eq__` restricted to well-formed partitions of one common dimension:
-never raises, is an equivalence; equal ones without `-0.0` grid coordinates have equal hashes.
-(Partitions of different dimension inherit finding C20-F1 through `self.set == other.set`.) -/
-theorem C20.partition_eq_equivalence_partial (d : Nat) :
+/-- Sensitivity (the defect C20-F2): with the OLD hash of the raw bytes,
+`RectGrid([-0.0, 1]) == RectGrid([0.0, 1])` had different hashes. -/
+theorem C20.old_grid_hash_signed_zero_fails :
+    (Grid.mk [[.negZero, .fin 1]]).eqI ⟨[[.fin 0, .fin 1]]⟩ = true ∧
+    (Grid.mk [[.negZero, .fin 1]]).hkOld ≠ (Grid.mk [[.fin 0, .fin 1]]).hkOld ∧
+    (Grid.mk [[.negZero, .fin 1]]).hk = (Grid.mk [[.fin 0, .fin 1]]).hk := by
+  decide
+
+/-- `RectPartition.__eq__` on all well-formed partitions (any and mixed dimensions): never
+raises, is an equivalence, and equal partitions have equal hashes. -/
+theorem C20.partition_eq_equivalence :
     (∀ a : Partition, a.wf → a.eqO a = some true) ∧
-    (∀ a b : Partition, a.wf → b.wf → a.set.ndim = d → b.set.ndim = d →
-      a.eqO b = some true → b.eqO a = some true) ∧
-    (∀ a b c : Partition, a.wf → b.wf → c.wf → a.set.ndim = d → b.set.ndim = d →
-      c.set.ndim = d → a.eqO b = some true → b.eqO c = some true → a.eqO c = some true) ∧
-    (∀ a b : Partition, a.wf → b.wf → a.set.ndim = d → b.set.ndim = d →
-      a.grid.noNegZero → b.grid.noNegZero → a.eqO b = some true → a.hk = b.hk) := by
-  refine ⟨?_, ?_, ?_, ?_⟩
-  · intro a ha; exact (Partition.eqO_iff ha ha rfl).2 rfl
-  · intro a b ha hb hda hdb h
-    have := (Partition.eqO_iff ha hb (hda.trans hdb.symm)).1 h
-    exact (Partition.eqO_iff hb ha (hdb.trans hda.symm)).2 this.symm
-  · intro a b c ha hb hc hda hdb hdc h1 h2
-    have k1 := (Partition.eqO_iff ha hb (hda.trans hdb.symm)).1 h1
-    have k2 := (Partition.eqO_iff hb hc (hdb.trans hdc.symm)).1 h2
-    exact (Partition.eqO_iff ha hc (hda.trans hdc.symm)).2 (k1.trans k2)
-  · intro a b ha hb hda hdb na nb h
-    exact Partition.hk_of_key ((Partition.eqO_iff ha hb (hda.trans hdb.symm)).1 h) na nb
+    (∀ a b : Partition, a.wf → b.wf → (a.eqO b).isSome = true) ∧
+    (∀ a b : Partition, a.wf → b.wf → a.eqO b = some true → b.eqO a = some true) ∧
+    (∀ a b c : Partition, a.wf → b.wf → c.wf →
+      a.eqO b = some true → b.eqO c = some true → a.eqO c = some true) ∧
+    (∀ a b : Partition, a.wf → b.wf → a.eqO b = some true → a.hk = b.hk) := by
+  refine ⟨?_, ?_, ?_, ?_, ?_⟩
+  · intro a ha; exact (Partition.eqO_iff ha ha).2 rfl
+  · intro a b ha hb; exact Partition.eqO_total ha hb
+  · intro a b ha hb h
+    exact (Partition.eqO_iff hb ha).2 ((Partition.eqO_iff ha hb).1 h).symm
+  · intro a b c ha hb hc h1 h2
+    exact (Partition.eqO_iff ha hc).2
+      (((Partition.eqO_iff ha hb).1 h1).trans ((Partition.eqO_iff hb hc).1 h2))
+  · intro a b ha hb h
+    exact Partition.hk_of_key ((Partition.eqO_iff ha hb).1 h)
 
 /-! ## tensor spaces, discretized spaces, (nested, weighted) product spaces -/
 
-/-- The partition comparison inside `DiscretizedSpace.__eq__` is only reached with equal
-shapes, and then it cannot raise: the broadcasting defect C20-F1 never surfaces through
-discretized spaces. -/
-theorem C20.discr_eq_never_raises (a b : Discr) (h : a.shape = b.shape) :
+/-- The partition comparison inside `DiscretizedSpace.__eq__` cannot raise. -/
+theorem C20.discr_eq_never_raises (a b : Discr) :
     (Partition.eqO b.part a.part).isSome = true :=
-  Discr.part_eq_total h
+  Discr.part_eq_total a b
 
 /-- MAIN (equivalence): `==` on `NumpyTensorSpace`, `DiscretizedSpace` and `ProductSpace`
 objects — all shapes, dtypes, weighting kinds (constants by value, arrays and callables by
@@ -162,27 +154,19 @@ example : (Space.prod [.tensor ⟨[2], .float64, .const .np (.fin 1) (.fin 2)⟩
       .prod [.tensor ⟨[3], .float32, .array .np 7 (.fin 1)⟩] (.const .ps (.fin 2) .posInf) .real]
       (.array .ps 3 (.fin 2)) .complex) = true := by decide
 
-/- FULL STATEMENT (false for the code as it exists): ∀ heap a b, a.eqI b = true →
-   a.hk heap = b.hk heap. -/
-/-- MAIN (hash): equal spaces have equal hashes, for every nesting depth and every content of
-the weighting arrays, provided both spaces carry the weighting classes native to their space
-class and no grid coordinate is `-0.0` (`Space.wfH`).  Missing for the full statement:
-findings C20-F2 (signed zero in `RectGrid.__hash__`) and C20-F3 (weighting family). -/
-theorem C20.space_hash_respects_eq_partial (heap : Nat → String) (a b : Space)
-    (ha : a.wfH) (hb : b.wfH) (h : a.eqI b = true) : a.hk heap = b.hk heap :=
-  Space.hk_of_key heap a b ((Space.eqI_iff a b).1 h) ha hb
+/-- MAIN (hash), full statement since the repairs of C20-F2 and C20-F3: equal spaces have
+equal hashes — every space class, every nesting depth, every weighting (also weightings of
+the other class family passed in explicitly), signed zeros in grids, every content of the
+weighting arrays. -/
+theorem C20.space_hash_respects_eq (heap : Nat → String) (a b : Space)
+    (h : a.eqI b = true) : a.hk heap = b.hk heap :=
+  Space.hk_of_key heap a b ((Space.eqI_iff a b).1 h)
 
-example : (Space.discr ⟨[⟨.fin 0, .fin 1, [.fin (1/4), .fin (3/4)]⟩], .float64,
-    .const .np (.fin (1/2)) (.fin 2), []⟩).wfH := by
-  simp [Space.wfH, Weighting.cls, Grid.noNegZero, Discr.part]
-
-/-- Counterexample (finding C20-F3 at the level of spaces): `rn(3, weighting=
-ProductSpaceConstWeighting(2.0)) == rn(3, weighting=2.0)` with different hashes. -/
-theorem C20.space_hash_weighting_family_fails :
-    ∃ a b : Space, a.eqI b = true ∧ ∀ heap, a.hk heap ≠ b.hk heap :=
-  ⟨.tensor ⟨[3], .float64, .const .ps (.fin 2) (.fin 2)⟩,
-   .tensor ⟨[3], .float64, .const .np (.fin 2) (.fin 2)⟩, by decide, fun _ => by
-    simp [Space.hk, TSpace.hk, Weighting.hk, Weighting.baseHk, tup, WCls.tok]⟩
+/-- `rn(3, weighting=ProductSpaceConstWeighting(2.0))` and `rn(3, weighting=2.0)` (the pair
+of C20-F3) are now unequal. -/
+theorem C20.space_weighting_family_unequal :
+    (Space.tensor ⟨[3], .float64, .const .ps (.fin 2) (.fin 2)⟩).eqI
+      (.tensor ⟨[3], .float64, .const .np (.fin 2) (.fin 2)⟩) = false := by decide
 
 /-- Membership is decided by the element's space alone (`x in S` iff `x.space == S`), objects
 without a `space` are never members, and membership respects equality of spaces: an element
@@ -359,36 +343,71 @@ theorem C20.byaxis_descr (t r : TSpace) (idx : PIdx) (h : t.byaxis idx = some r)
     simp [hs]
 
 /- FULL STATEMENT (false for the code as it exists): the weighting and exponent of `P[idx]`
-   are those of `P` restricted to the selection. -/
+   are those of `P` restricted to the selection, for every weighting kind. -/
 /-- `pspace_index_descr`: `P[i]` is the i-th component; `P[slice]` / `P[list]` is the product of
-exactly the selected components with the field of `P`.  Its weighting is the one of `P` only
-when `P` is unweighted with exponent 2 (finding C20-F4: weighting and exponent are dropped). -/
+exactly the selected components with the field of `P`, and — since the repair of C20-F4 for
+constant weightings — carries the constant weighting and exponent of `P`.  Missing for the
+full statement: array (and custom) weightings are still not passed on (C20-F4, open part). -/
 theorem C20.pspace_index_descr_partial (l : List Space) (w : Weighting) (f : Fld) :
     (∀ i, (Space.prod l w f).pindex (.int i) = l[i]?) ∧
-    (∀ s, (Space.prod l w f).pindex (.slice s) = some (.prod (selSlice l s) (defaultW .ps) f)) ∧
+    (∀ s, (Space.prod l w f).pindex (.slice s) = some (.prod (selSlice l s) (selW w) f)) ∧
     (∀ idx sel, selList l idx = some sel →
-      (Space.prod l w f).pindex (.list idx) = some (.prod sel (defaultW .ps) f)) ∧
-    (w = defaultW .ps → ∀ s, (Space.prod l w f).pindex (.slice s) = some (.prod (selSlice l s) w f)) := by
+      (Space.prod l w f).pindex (.list idx) = some (.prod sel (selW w) f)) ∧
+    (∀ c v e, w = .const c v e → selW w = w) := by
   refine ⟨fun _ => rfl, fun _ => rfl, ?_, ?_⟩
-  · intro idx sel h; simp [Space.pindex, h, mkProdF]
-  · intro h s; subst h; rfl
+  · intro idx sel h; simp [Space.pindex, h]
+  · intro c v e h; subst h; rfl
 
-/-- Counterexample (finding C20-F4) on the model of the current code: slicing a product space
-weighted by 2 with exponent 1 yields an unweighted exponent-2 space. -/
-theorem C20.pspace_index_drops_weighting_fails :
+/-- a product space weighted by 2 with exponent 1 keeps both under slicing -/
+example :
     let r2 : Space := .tensor ⟨[2], .float64, defaultW .np⟩
     (Space.prod [r2, r2, r2] (.const .ps (.fin 2) (.fin 1)) .real).pindex (.slice ⟨1, 2, 1⟩) =
+      some (.prod [r2, r2] (.const .ps (.fin 2) (.fin 1)) .real) := by
+  rfl
+
+/-- Counterexample (open part of C20-F4) on the model of the current code: slicing a product
+space weighted by an ARRAY yields an unweighted exponent-2 space. -/
+theorem C20.pspace_index_drops_array_weighting_fails :
+    let r2 : Space := .tensor ⟨[2], .float64, defaultW .np⟩
+    (Space.prod [r2, r2, r2] (.array .ps 5 (.fin 1)) .real).pindex (.slice ⟨1, 2, 1⟩) =
       some (.prod [r2, r2] (.const .ps (.fin 1) (.fin 2)) .real) := by
   rfl
+
+/-- `ProductSpace.astype(dtype)` (after the repair of C20-F4): a product space whose
+components all have dtype `dtype` already is returned as is; otherwise, if all components
+can be cast, the result is the product of the cast components, and for floating-point
+targets it carries the weighting object (hence exponent) of the original. -/
+theorem C20.pspace_astype_descr (T : DTables) (l l' : List Space) (w : Weighting) (f : Fld)
+    (dt : DType) (h : Space.astypeL T l dt = some l') :
+    (Space.dtypeIs l dt = true → (Space.prod l w f).astype T dt = some (.prod l w f)) ∧
+    (Space.dtypeIs l dt = false → T.isFloating dt = true →
+      (Space.prod l w f).astype T dt = mkProdW T l' w) := by
+  constructor
+  · intro h1; simp [Space.astype, h1]
+  · intro h1 h2; simp [Space.astype, h1, h, h2]
+
+/-- A product space with MIXED component dtypes is never "already of dtype `dt`", in
+particular not when only its first component has dtype `dt`: `ProductSpace(rn(2), rn(3,
+dtype='float32')).astype('float64')` must cast the second component. -/
+theorem C20.pspace_astype_mixed_dtype_casts :
+    let T := OdlModel.Gen.DTypes.tables
+    let r2 : Space := .tensor ⟨[2], .float64, defaultW .np⟩
+    let r3f : Space := .tensor ⟨[3], .float32, defaultW .np⟩
+    let r3 : Space := .tensor ⟨[3], .float64, defaultW .np⟩
+    (Space.prod [r2, r3f] (defaultW .ps) .real).astype T .float64 =
+      some (.prod [r2, r3] (defaultW .ps) .real) := by
+  simp [Space.astype, Space.astypeL, Space.dtypeIs, Space.dtypeAll, TSpace.astype, mkProdW,
+    Space.field, OdlModel.Gen.DTypes.tables, OdlModel.Gen.DTypes.available,
+    OdlModel.Gen.DTypes.isFloating, OdlModel.Gen.DTypes.isReal, defaultW]
 
 /-! ## composite sets -/
 
 /-- `SetUnion.__eq__` / `SetIntersection.__eq__` (mutual inclusion of the member tuples, as
 repaired by commit 02921b9) and `CartesianProduct.__eq__` (tuple equality), for members that
-are fields, `Strings`, `EmptySet`, `UniversalSet`, grids or spaces of any kind (i.e. members
-whose own `==` cannot raise): never raise, reflexive, symmetric, transitive — for any number
-of members, in any order, with duplicates.  Excluded members: interval products of mixed
-dimension (finding C20-F1) and `FiniteSet`s. -/
+are fields, `Strings`, `EmptySet`, `UniversalSet`, interval products (of any, also mixed,
+dimensions — since the repair of C20-F1), grids or spaces of any kind: never raise, reflexive,
+symmetric, transitive — for any number of members, in any order, with duplicates.
+Missing for the full statement: `FiniteSet` members (`_partial`). -/
 theorem C20.composite_eq_equivalence_partial :
     (∀ a b : List Leaf, (∀ x ∈ a, x.simple) → (∀ x ∈ b, x.simple) →
       ((Obj.union a).eqO (.union b)).isSome = true ∧
@@ -443,6 +462,11 @@ theorem C20.composite_eq_equivalence_partial :
 
 example : (Obj.union [.realNumbers, .complexNumbers]).eqO
     (.union [.complexNumbers, .realNumbers, .complexNumbers]) = some true := by decide
+
+example : (Obj.union [.interval ⟨[.fin 0, .fin 0], [.fin 1, .fin 1]⟩,
+      .interval ⟨[.fin 0, .fin 0, .fin 0], [.fin 1, .fin 1, .fin 1]⟩]).eqO
+    (.union [.interval ⟨[.fin 0, .fin 0, .fin 0], [.fin 1, .fin 1, .fin 1]⟩,
+      .interval ⟨[.fin 0, .fin 0], [.fin 1, .fin 1]⟩]) = some true := by decide
 
 /-- The defect repaired by commit 02921b9, on a model of the OLD code: with `set_ in other`
 (membership of the member set AS AN ELEMENT of the other union, which is `False` for a set
